@@ -56,6 +56,8 @@ class SNum (ρ : outParam Type) (σ : Type) extends Add σ, Sub σ, Mul σ, Div 
   ofNat : Nat → σ
   zero  : σ
   one   : σ
+  /-- `value == T::zero()` -/
+  isZero : σ → Bool
   sbits : σ → UInt64
 
 /-- `Sample::PI`, `sin`, `cos` (libm for the IEEE instances, the real functions for `ℝ`). -/
@@ -91,6 +93,7 @@ instance : SNum Float Float where
   ofNat n := Float.ofNat n
   zero := 0.0
   one := 1.0
+  isZero x := x == 0.0
   sbits := Float.toBits
 
 instance : SNum Float Float32 where
@@ -98,6 +101,7 @@ instance : SNum Float Float32 where
   ofNat n := Float32.ofNat n
   zero := 0.0
   one := 1.0
+  isZero x := x == 0.0
   sbits x := x.toBits.toUInt64
 
 instance : STrig Float where
@@ -134,6 +138,7 @@ instance : SNum Rat Rat where
   ofNat n := (n : Rat)
   zero := 0
   one := 1
+  isZero x := decide (x = 0)
   sbits _ := 0
 
 /-! ### Integer division helpers for the FFT adapters -/
